@@ -367,7 +367,7 @@ func genParse(c *Ctx) {
 
 	// (a) exhaustive words over the token alphabet
 	maxLen, fullLen := 4, 3
-	sampleLong := 6000
+	sampleLong := 12000
 	if c.Thorough {
 		maxLen, fullLen, sampleLong = 5, 4, 150000
 	}
@@ -428,7 +428,7 @@ func genParse(c *Ctx) {
 	}
 
 	// (b) grammar-based random streams
-	nRandom := 5000
+	nRandom := 15000
 	if c.Thorough {
 		nRandom = 150000
 	}
